@@ -36,7 +36,7 @@ PROPS = {
     "C01": dict(streams=[ALGO, HIST, COMP], oracles=[dict(name="wf", profiles=["debug"])],
                 assumptions=["generic with arithmetic methods: well-formedness theorem has the no-overflow closure of the update formula as a hypothesis; nnchain needs reducibility (proved for single/complete over a strict weak order and for average/weighted/ward over Q)"]),
     "C02": dict(streams=[ALGO, HIST], translators=["formulas"], oracles=[dict(name="criterion", profiles=["debug"])],
-                assumptions=["whole-run theorems are about primitive_with and nnchain_with in exact rational arithmetic (single/complete: any strict weak order); the float tolerance and generic are measured by correspondence and oracle"]),
+                assumptions=["whole-run theorems are about primitive_with and nnchain_with in exact rational arithmetic (single/complete: any strict weak order); generic: exact rationals with an infinite sentinel); the float tolerance is measured by correspondence and oracle"]),
     "C03": dict(streams=[ALGO, HIST, COMP], oracles=[dict(name="greedy", profiles=["debug"])],
                 assumptions=["theorems cover the primitive algorithm (working matrix: any carrier; closed-form criterion: exact arithmetic); order laws of `<` (transitive, irreflexive) are hypotheses that IEEE comparison satisfies"]),
     "C04": dict(streams=[ALGO, HIST], oracles=[dict(name="single_exact", profiles=["debug"])],
